@@ -7,6 +7,42 @@ import re
 
 HERE = os.path.dirname(os.path.dirname(os.path.abspath(__file__)))
 NEEDS = {
+    'C01-4': ('quasi-Newton solvers accept a gradient test exactly equal to epsilon (<=)', 'a gradient test bit-for-bit equal to epsilon'),
+    'C01-5': ('BFGS update rank-one term divided by dg.dg instead of dx.dg', 'curvature scale well above 1 (s ~ 1e2..1e3)'),
+    'C01-6': ('L-BFGS initial scaling s.y/s.s instead of s.y/y.y', 'lowest curvature scale, large condition number, many dimensions'),
+    'C02-4': ('gradient-sampling LBFGS preconditioner admits negative-curvature pairs (fabs(dy))', 'a non-convex function, lsearch_beta ~ 0.5, a budget ending right after the uphill step'),
+    'C02-5': ('curve search falls through after a rejected trial (continue dropped)', 'rqb, a first trial that overshoots, max_evals in 10..14'),
+    'C02-6': ('RQB outer loop <= against the curve search\'s <', 'rqb with an even max_evals that is reached without convergence (never returns)'),
+    'C03-4': ('ellipsoid dimension kept as an integer: (n*n)/(n*n-1) truncates to 1', 'n = 2 and a minimiser just outside the under-sized ellipsoid'),
+    'C03-5': ('degenerate-ellipsoid guard reports converged only if sqrt(gHg) < epsilon', 'epsilon below sqrt(DBL_EPSILON) (the default 1e-8)'),
+    'C03-6': ('solver_status enumerators reordered: value-initialised status is converged', 'rqb / fpba budget exhausted before the stopping test is met'),
+    'C05-4': ('penalty activity test fc > epsilon1 instead of fc > 0', 'an inequality violated by at most 1e-10'),
+    'C05-5': ('augmented-Lagrangian reads inequality multipliers as max(miu, 0)', 'a negative inequality multiplier at a point violating that constraint'),
+    'C05-6': ('done() moved before the state update in the augmented-Lagrangian loop', 'constraint gradients larger than 1'),
+    'C07-4': ('Fletcher bracketing: Armijo test reads the stale initial step', 'c1 > 0.3 and an extrapolated point passing strong Wolfe but failing Armijo'),
+    'C07-5': ('has_strong_wolfe gets an absolute slack epsilon1', 'a start slope of ~1e-10 or below'),
+    'C07-6': ('initial-step sanitisation loses its isfinite test', 't0 = NaN'),
+    'C08-4': ('one-hot flatten guard class_index <= segment.size()', 'a single-label feature owning the last flatten columns and a sample with the last label'),
+    'C08-5': ('check(samples) takes the first / last index as min / max', 'an unsorted list with an out-of-range index in the middle'),
+    'C08-6': ('check(feature): feature > features()', 'feature == features() exactly'),
+    'C09-4': ('gboost grads: outputs not sliced for the loss value call', 'more than one chunk and outputs differing between samples'),
+    'C09-5': ('sum_reduce returns early (unnormalised) for a single accumulator', 'a dataset built with one thread'),
+    'C09-6': ('linear objective: l1 / l2 terms became if / else if', 'l1 > 0 and l2 > 0 (elastic net)'),
+    'C10-4': ('stump threshold fallback guard <= instead of <', 'two consecutive feature values one ulp apart with the best split between them'),
+    'C10-5': ('accumulator sort gain (sum r)^2/x0 instead of sum r^2/x0', 'two or more outputs with mixed-sign residual sums'),
+    'C10-6': ('hinge split assigns by position instead of sample index', 'a sample list that is not the ordered prefix 0..n-1'),
+    'C11-4': ('gboost fit does not clear the weak learners of a previous fit', 'fit() called on an already fitted model'),
+    'C11-5': ('early stopping accepts an improvement of exactly epsilon (<=)', 'a validation error lower than the best by exactly epsilon'),
+    'C11-6': ('right hinge prediction overwrites instead of accumulating', 'a right-type hinge after a non-zero bias or an earlier learner'),
+    'C13-4': ('per-trial value becomes a sample-weighted mean over folds', 'folds of different sizes and two trials ranked differently by the two averages'),
+    'C13-5': ('fold\'s training and validation indices swapped in the tune task', '3 or more folds or the random splitter'),
+    'C13-6': ('local-search refinement counts iterations instead of evaluations', 'a small budget, a large grid, a minimum far from the centre'),
+    'C16-4': ('dims product via std::accumulate with an int initial value', 'a shape with >= 2^31 elements or strides'),
+    'C16-5': ('owning storage resize returns early when the dims are unchanged', 'move out, resize to the identical shape, access'),
+    'C16-6': ('integral guard tests only the first extent', 'a shape whose last axis is zero while the earlier ones are not'),
+    'C18-1': ('tuning warm start may read a sibling trial still being evaluated', 'two tuned hyper-parameters (elastic net) and more than one thread'),
+    'C18-2': ('select iterator chunk loop reads features(begin) instead of features(index)', 'a chunk holding more than one feature (>= 24 scalar features on 16 threads)'),
+    'C18-3': ('make_lsearch configures the shared prototypes before cloning', 'one solver shared by two threads calling minimize()'),
     'C04-1': ('normalize() returns the un-floored norm while dividing by the floored one', 'an objective with max(||Q||_F, ||c||_2) < 1e-3'),
     'C04-2': ('duality-gap conjunct dropped from the convergence test of done()', 'an iteration that breaks down early with tiny residuals but eta ~1e-5..1e-3'),
     'C04-3': ('solve_without_inequality accepts on the LDLT status alone', 'no inequalities and a singular KKT system that LDLT does not flag'),
